@@ -615,3 +615,11 @@ func likeMatch(s, pattern string, escape byte, caseInsensitive bool) bool {
 	}
 	return match(0, 0)
 }
+
+// cloneBytes copies b; an empty (non-nil) input yields an empty non-nil slice, like the MySQL driver's
+// readLengthEncodedString, so that an empty binary value is never mistaken for NULL.
+func cloneBytes(b []byte) []byte {
+	out := make([]byte, len(b))
+	copy(out, b)
+	return out
+}
